@@ -549,4 +549,83 @@ theorem plan_spec (t : Tbl) (ok : TblOK t) (vv : VV) (gid n : Nat) (d : Disk) (h
               rw [applyAll_append, e123]
               exact ⟨⟨m, m2, hm⟩, m4, m5, m6, rfl, m7⟩
 
+/-! ### histories -/
+
+theorem inv_exec (t : Tbl) (ok : TblOK t) (s : St) (op : Op) (hi : Inv t s.disk) :
+    Inv t (exec t s op).disk := by
+  cases op with
+  | edit k v => exact hi
+  | run n =>
+    exact chain_inv t _ _ hi (plan_spec t ok s.vv s.gid n s.disk hi).1
+  | crash n k =>
+    exact chain_crash t _ k _ hi (plan_spec t ok s.vv s.gid n s.disk hi).1
+  | tear n k =>
+    exact chain_tear t _ k _ hi (plan_spec t ok s.vv s.gid n s.disk hi).1
+  | del f =>
+    exact step_inv t s.disk (.rm f) hi trivial
+
+theorem inv_init (t : Tbl) : Inv t St.init.disk := by
+  intro c st g hc
+  simp [St.init, Disk.empty] at hc
+
+theorem inv_execAll (t : Tbl) (ok : TblOK t) (h : List Op) (s : St) (hi : Inv t s.disk) :
+    Inv t (execAll t s h).disk := by
+  induction h generalizing s with
+  | nil => exact hi
+  | cons op rest ih => exact ih _ (inv_exec t ok s op hi)
+
+/-- steps that would overwrite or remove something an earlier run with `n0` simulations relies on -/
+def Step.touchesOld (n0 : Nat) : Step → Bool
+  | .wrEmis i _ => decide (i < n0)
+  | .wrHashes _ => true
+  | .wrInfra _ => true
+  | .rm _ => true
+  | _ => false
+
+theorem emisLoop_touches (g : Gen) (cnt lo n0 : Nat) (h : n0 ≤ lo) :
+    ∀ s ∈ emisLoop g lo cnt, s.touchesOld n0 = false := by
+  induction cnt generalizing lo with
+  | zero => simp [emisLoop]
+  | succ k ih =>
+    intro s hs
+    simp only [emisLoop, List.mem_cons] at hs
+    rcases hs with rfl | hs
+    · simp only [Step.touchesOld, decide_eq_false_iff_not]; omega
+    · exact ih (lo + 1) (by omega) s hs
+
+/-- the plan of a run that finds a complete, matching folder: nothing old is touched -/
+theorem plan_of_valid (t : Tbl) (ok : TblOK t) (vv : VV) (g : Gen) (n0 n1 gid : Nat) (d : Disk)
+    (hv : Valid t vv g n0 d) :
+    (plan t vv gid n1 d).outcome = some g ∧
+    ∀ s ∈ (plan t vv gid n1 d).steps, s.touchesOld n0 = false := by
+  obtain ⟨⟨m, hs, hm⟩, ⟨st, hh, hmatch⟩, hg, ⟨c, hc, hnc, he⟩, hts, hcur⟩ := hv
+  have hpres : t.required.all d.present = true := by
+    simp only [List.all_eq_true]
+    intro f _
+    cases f <;> simp [Disk.present, FileSt.present, hs, hh, hg, hc, hts]
+  have h1 : seedsStage n1 d = some (if m < n1 then [.wrSeeds n1] else [], false) := by
+    simp [seedsStage, hs]
+  have h2 : infraStage t vv gid false d = some ([], g, true) := by
+    simp [infraStage, hpres, hh, hmatch, hg]
+  have h3 : emisStage t n1 true g d = some (if c < n1 then instPhases t.emisExtend g c n1 else []) := by
+    simp [emisStage, hc]
+  have h4 : tsStage d = some [] := by
+    simp [tsStage, hts]
+  simp only [plan, h1, h2, h3, h4, List.append_nil, true_and]
+  intro s hs'
+  simp only [List.mem_append] at hs'
+  rcases hs' with hs' | hs'
+  · by_cases hmn : m < n1
+    · simp only [hmn, if_true, List.mem_singleton] at hs'
+      subst hs'
+      rfl
+    · simp [hmn] at hs'
+  · by_cases hcn : c < n1
+    · simp only [hcn, if_true, ok.emisExtend, instPhases_safe, List.mem_append,
+        List.mem_singleton] at hs'
+      rcases hs' with hs' | rfl
+      · exact emisLoop_touches g _ c n0 hnc s hs'
+      · rfl
+    · simp [hcn] at hs'
+
 end LdarModel.Cache
